@@ -112,6 +112,8 @@ class FakeConn:
         self.delivered += n
         self.reader.feed_data(data)
         self.net._refresh(self)
+        if self.net.on_deliver is not None:
+            self.net.on_deliver(self, data)
         return data
 
     def deliver_eof(self):
@@ -142,6 +144,7 @@ class Net:
         self.conns = []
         self.refuse = set()         # (host, port) that refuse connections
         self.refuse_idx = set()
+        self.on_deliver = None
         self._orig = None
 
     def install(self):
